@@ -111,7 +111,9 @@ def holdsC05 (segs : List OSeg) (o : BindObs) : Bool :=
   ((o.mode == "query") == hasOutputSeg segs) &&
   (!cleanForTokens segs ||
     (let als := numbersAfter (bs " AS _sqlair_") o.sql
-     als == List.range als.length && (hasOutputSeg segs == !als.isEmpty)))
+     als == List.range als.length && (hasOutputSeg segs == !als.isEmpty) &&
+     -- a SQL wildcard is never generated as an output column
+     !(containsSub o.sql "* AS _sqlair_")))
 
 /-! ### C03, value level: an independent specification of "the field carrying that db tag" -/
 
